@@ -97,20 +97,24 @@ package rac
 
 // The CodecWriter interface (assumed; these are obligations on codec packages).
 //@ func iface rac.CodecWriter.Compress
-//@   trusted_contract rac.CodecWriter.Compress: reads p and q, touches nothing the Writer can see; results arbitrary (a resource index outside [0, len(resourcesData)) means "no resource", per the interface's doc comment)
-//@   pure
+//@   trusted_contract rac.CodecWriter.Compress: reads p and q, touches nothing the Writer can see; results arbitrary (a resource index outside [0, len(resourcesData)) means "no resource", per the interface's doc comment); the compressed bytes live in memory the Writer cannot otherwise see
+//@   ensures fresh(base(compressed))
 
 //@ func iface rac.CodecWriter.Cut
 //@   trusted_contract rac.CodecWriter.Cut: per the interface's doc comment encodedLen <= maxEncodedLen; also assumed: 0 <= encodedLen <= len(encoded) and decodedLen >= 0; may modify encoded's bytes
 //@   ensures implies(retErr == nil, 0 <= encodedLen && encodedLen <= maxEncodedLen && encodedLen <= len(encoded) && decodedLen >= 0)
 //@   modifies mem(encoded)
 
+//@ func iface rac.CodecWriter.CanCut
+//@   trusted_contract rac.CodecWriter.CanCut: touches nothing the Writer can see
+//@   pure
+
 //@ func iface rac.CodecWriter.WrapResource
 //@   trusted_contract rac.CodecWriter.WrapResource: touches nothing the Writer can see; result arbitrary
 //@   pure
 
 // wOK: the Writer's state between calls, once initialize has succeeded.
-//@ spec wOK(w *Writer) bool = w != nil && wf(w.uncompressed) && w.CodecWriter != nil && len(w.resourcesIDs) == len(w.ResourcesData) && base(w.uncompressed.curr) != base(w.uncompressed.prev)
+//@ spec wOK(w *Writer) bool = w != nil && wf(w.uncompressed) && w.CodecWriter != nil && len(w.resourcesIDs) == len(w.ResourcesData) && base(w.uncompressed.curr) != base(w.uncompressed.prev) && w.err != errInternalShortCSize && cwOK(w.chunkWriter)
 
 // useResource: "It is valid to pass an i outside the range [0, len(w.resourcesIDs)),
 // in which case the call is a no-op" (doc comment) - so no index may be out of range.
@@ -118,8 +122,9 @@ package rac
 //@   prop C13
 //@   requires wOK(w)
 //@   ensures wOK(w) && unchanged(w.uncompressed.p) && unchanged(w.uncompressed.prev) && unchanged(w.uncompressed.curr) && unchanged(mem(w.uncompressed.prev)) && unchanged(mem(w.uncompressed.curr))
-//@   ensures[sticky] implies(result1 != nil, w.err != nil)
-//@   modifies w.err, w.chunkWriter, mem(w.resourcesIDs)
+//@   ensures[sticky] implies(result1 != nil, w.err != nil) && result1 != errInternalShortCSize
+//@   ensures[backing] base(w.chunkWriter.resourcesCOffCLens) == old(base(w.chunkWriter.resourcesCOffCLens)) || fresh(base(w.chunkWriter.resourcesCOffCLens))
+//@   modifies w.err, w.chunkWriter, mem(w.resourcesIDs), mem(w.chunkWriter.resourcesCOffCLens)
 
 // writeDChunks: each chunk covers exactly the next dSize pending bytes: what is
 // handed to Compress is those bytes minus trailing zeroes (zeroes inside the
@@ -128,7 +133,7 @@ package rac
 //@   prop C13
 //@   requires wOK(w) && w.dChunkSize > 0
 //@   ensures wOK(w)
-//@   modifies w.err, w.chunkWriter, mem(w.resourcesIDs), w.uncompressed.p, w.uncompressed.curr
+//@   modifies w.err, w.chunkWriter, mem(w.resourcesIDs), mem(w.chunkWriter.resourcesCOffCLens), w.uncompressed.p, w.uncompressed.curr
 //@   loop 1 invariant wOK(w) && unchanged(w.dChunkSize) && unchanged(w.uncompressed.prev) && unchanged(mem(w.uncompressed.prev)) && unchanged(mem(w.uncompressed.curr))
 //@   loop 1 decreases vlen(w.uncompressed)
 //@   assert@call Compress#1 [window] base(arg_p) == base(w.uncompressed.prev) && off(arg_p) == off(w.uncompressed.prev) + w.uncompressed.p && len(arg_p) <= len(w.uncompressed.prev) - w.uncompressed.p
@@ -136,18 +141,145 @@ package rac
 //@   assert@call Compress#1 [zeroes] math(dSize) <= math(vlen(w.uncompressed)) && forall(k, len(arg_p) + len(arg_q), int(dSize), view(w.uncompressed, k) == 0)
 //@   assert@call AddChunk#1 [size] arg_dRangeSize == dSize && dSize > 0 && math(dSize) == ite(math(w.dChunkSize) <= math(vlen(w.uncompressed)), math(w.dChunkSize), math(vlen(w.uncompressed)))
 
+// tryCChunk: Compress sees exactly the next min(target, length) pending bytes;
+// the DRange size announced to AddChunk equals the number of bytes consumed from
+// the buffer (the compressed or cut prefix plus the zeroes elided after it).
+//@ func (*Writer).tryCChunk
+//@   prop C13
+//@   requires wOK(w) && w.cChunkSize > 0 && w.cChunkSize <= 1073741824
+//@   ensures wOK(w) && unchanged(w.cChunkSize) && unchanged(w.uncompressed.prev) && unchanged(mem(w.uncompressed.prev)) && unchanged(mem(w.uncompressed.curr))
+//@   ensures[progress] implies(result == nil && old(vlen(w.uncompressed)) > 0 && targetDChunkSize > 0, vlen(w.uncompressed) < old(vlen(w.uncompressed)))
+//@   ensures[forced] implies(force, result != errInternalShortCSize)
+//@   ensures[shrinks] vlen(w.uncompressed) <= old(vlen(w.uncompressed))
+//@   ensures[backing] (base(w.chunkWriter.resourcesCOffCLens) == old(base(w.chunkWriter.resourcesCOffCLens)) || fresh(base(w.chunkWriter.resourcesCOffCLens)))
+//@   modifies w.err, w.chunkWriter, mem(w.resourcesIDs), mem(w.chunkWriter.resourcesCOffCLens), w.uncompressed.p, w.uncompressed.curr
+//@   assert@call Compress#1 [window] base(arg_p) == base(w.uncompressed.prev) && off(arg_p) == off(w.uncompressed.prev) + w.uncompressed.p && (len(arg_q) == 0 || (base(arg_q) == base(w.uncompressed.curr) && off(arg_q) == off(w.uncompressed.curr) && len(arg_p) == len(w.uncompressed.prev) - w.uncompressed.p))
+//@   assert@call Compress#1 [all] math(len(arg_p)) + math(len(arg_q)) == ite(math(targetDChunkSize) <= math(vlen(w.uncompressed)), math(targetDChunkSize), math(vlen(w.uncompressed)))
+//@   assert@call Cut#1 [noalias] base(arg_encoded) != base(w.uncompressed.curr) && base(arg_encoded) != base(w.uncompressed.prev)
+//@   assume@after Cut#1 implies(result2 == nil, math(result1) <= math(dSize))
+//@   assert@call AddChunk#1 [consumed] math(arg_dRangeSize) == math(old(vlen(w.uncompressed))) - math(vlen(w.uncompressed))
+//@   assert@call AddChunk#2 [consumed] math(arg_dRangeSize) == math(old(vlen(w.uncompressed))) - math(vlen(w.uncompressed))
+
+// writeCChunks: grow-then-cut; every pass of the outer loop consumes at least one
+// byte, the inner loop doubles the target until it is forced at the maximum.
+//@ func (*Writer).writeCChunks
+//@   prop C13
+//@   requires wOK(w) && w.cChunkSize > 0 && w.cChunkSize <= 1073741824
+//@   ensures wOK(w)
+//@   modifies w.err, w.chunkWriter, mem(w.resourcesIDs), mem(w.chunkWriter.resourcesCOffCLens), w.uncompressed.p, w.uncompressed.curr
+//@   loop 1 invariant wOK(w) && unchanged(w.cChunkSize) && unchanged(w.uncompressed.prev) && unchanged(mem(w.uncompressed.prev)) && unchanged(mem(w.uncompressed.curr))
+//@   loop 1 invariant (base(w.chunkWriter.resourcesCOffCLens) == old(base(w.chunkWriter.resourcesCOffCLens)) || fresh(base(w.chunkWriter.resourcesCOffCLens)))
+//@   loop 1 decreases vlen(w.uncompressed)
+//@   loop 2 invariant (base(w.chunkWriter.resourcesCOffCLens) == old(base(w.chunkWriter.resourcesCOffCLens)) || fresh(base(w.chunkWriter.resourcesCOffCLens)))
+//@   loop 2 invariant wOK(w) && unchanged(w.cChunkSize) && unchanged(w.uncompressed.prev) && unchanged(mem(w.uncompressed.prev)) && unchanged(mem(w.uncompressed.curr))
+//@   loop 2 invariant 0 < targetDChunkSize && targetDChunkSize <= 2147483648 && vlen(w.uncompressed) > 0 && vlen(w.uncompressed) <= athead(1, vlen(w.uncompressed))
+//@   loop 2 decreases 2147483648 - targetDChunkSize
+
+// write / Write: the struct invariant the doc comment states - before and after
+// every Write call curr is empty and p is 0 - and the MaxSize guards.
+//@ func (*Writer).write
+//@   prop C13
+//@   requires wOK(w) && (w.dChunkSize > 0 || (w.cChunkSize > 0 && w.cChunkSize <= 1073741824))
+//@   ensures wOK(w) && unchanged(w.uncompressed.prev) && unchanged(mem(w.uncompressed.prev))
+//@   modifies w.err, w.chunkWriter, mem(w.resourcesIDs), mem(w.chunkWriter.resourcesCOffCLens), w.uncompressed.p, w.uncompressed.curr
+
+// wInit: what initialize establishes once, and every later call relies on.
+//@ spec wInit(w *Writer) bool = implies(w.chunkWriter.Writer != nil, w.CodecWriter != nil && len(w.resourcesIDs) == len(w.ResourcesData) && (w.dChunkSize > 0 || (w.cChunkSize > 0 && w.cChunkSize <= 1073741824)))
+
+//@ func (*Writer).initialize
+//@   prop C13
+//@   requires w != nil && wInit(w) && w.err != errInternalShortCSize && cwOK(w.chunkWriter)
+//@   ensures w.err != errInternalShortCSize && cwOK(w.chunkWriter) && wInit(w) && implies(result == nil, w.chunkWriter.Writer != nil && old(w.err) == nil) && unchanged(w.uncompressed.prev) && unchanged(w.uncompressed.curr) && unchanged(w.uncompressed.p)
+//@   ensures[sticky] implies(old(w.err) != nil, result == old(w.err)) && implies(result != nil, w.err == result)
+//@   ensures[ids] sameslice(w.resourcesIDs, old(w.resourcesIDs)) || fresh(base(w.resourcesIDs))
+//@   modifies w.err, w.resourcesIDs, w.dChunkSize, w.cChunkSize, w.chunkWriter.Writer, w.chunkWriter.IndexLocation, w.chunkWriter.TempFile, w.chunkWriter.CPageSize
+
+// Write: "before and after every Write call, writeBuffer.curr is empty and
+// writebuffer.p is 0"; all of p is accepted or an error is returned; a stored
+// error is returned again and nothing is consumed.
+//@ func (*Writer).Write
+//@   prop C13
+//@   requires w != nil && wInit(w) && wf(w.uncompressed) && len(w.uncompressed.curr) == 0 && w.uncompressed.p == 0 && base(p) != base(w.uncompressed.prev) && w.err != errInternalShortCSize && cwOK(w.chunkWriter)
+//@   ensures wInit(w) && wf(w.uncompressed) && len(w.uncompressed.curr) == 0 && w.uncompressed.p == 0 && w.err != errInternalShortCSize && cwOK(w.chunkWriter)
+//@   ensures[accepted] implies(result1 == nil, result0 == len(p)) && implies(result1 != nil, result0 == 0)
+//@   ensures[sticky] implies(old(w.err) != nil, result1 == old(w.err) && unchanged(w.uncompressed.prev) && unchanged(mem(w.uncompressed.prev)))
+//@   modifies *w, mem(w.resourcesIDs), mem(w.uncompressed.prev), mem(w.chunkWriter.resourcesCOffCLens)
+
 // ---- chunk_writer.go ----
+// Sticky first error: a stored error is returned again before anything else
+// happens, and every failure of the underlying io.Writer / TempFile / Seeker is
+// stored in w.err before it is returned.
+
+// cwOK: once initialised without error there is a Writer; the padding buffer is nil or
+// non-empty; the bytes written so far fit in 48 bits.
+//@ spec cwOK(w *ChunkWriter) bool = w != nil && implies(w.initialized && w.err == nil, w.Writer != nil && w.CPageSize <= 0xFFFFFFFFFFFF) && (w.padding == nil || len(w.padding) > 0) && implies(w.err == nil, w.dataSize <= 0xFFFFFFFFFFFF) && w.dFileSize <= 0xFFFFFFFFFFFF && w.err != errInternalShortCSize
+
+//@ func isZeroOrAPowerOf2
+//@   prop C13
+//@   mode bv
+//@   pure
+
+//@ func (*ChunkWriter).checkParameters
+//@   prop C13
+//@   mode bv
+//@   requires w.err != errInternalShortCSize && w != nil
+//@   ensures[stored] implies(result != nil, w.err == result) && implies(result == nil, w.Writer != nil && unchanged(w.err) && w.CPageSize <= 0xFFFFFFFFFFFF)
+//@   ensures w.err != errInternalShortCSize
+//@   modifies w.err, w.log2CPageSize
+
+//@ func (*ChunkWriter).padToPageSize
+//@   prop C13
+//@   mode bv
+//@   requires w.err != errInternalShortCSize && w != nil && ioWriter != nil && (w.padding == nil || len(w.padding) > 0) && w.dataSize <= 0xFFFFFFFFFFFF && w.CPageSize <= 0xFFFFFFFFFFFF
+//@   ensures[stored] implies(result != nil, w.err == result) && implies(result == nil, unchanged(w.err) && w.dataSize <= 0xFFFFFFFFFFFF && w.dataSize >= old(w.dataSize)) && (w.padding == nil || len(w.padding) > 0)
+//@   ensures w.err != errInternalShortCSize
+//@   modifies w.err, w.padding, w.dataSize
+//@   loop 1 invariant w != nil && ioWriter != nil && unchanged(w.err) && len(w.padding) > 0 && unchanged(w.CPageSize) && w.dataSize <= 0xFFFFFFFFFFFF && w.dataSize >= old(w.dataSize)
+
+//@ func (*ChunkWriter).writePadding
+//@   prop C13
+//@   mode bv
+//@   requires w.err != errInternalShortCSize && w != nil && ioWriter != nil && (w.padding == nil || len(w.padding) > 0) && w.dataSize <= 0xFFFFFFFFFFFF && w.CPageSize <= 0xFFFFFFFFFFFF
+//@   ensures[stored] implies(result != nil, w.err == result) && implies(result == nil, unchanged(w.err) && w.dataSize <= 0xFFFFFFFFFFFF && w.dataSize >= old(w.dataSize)) && (w.padding == nil || len(w.padding) > 0)
+//@   ensures w.err != errInternalShortCSize
+//@   modifies w.err, w.padding, w.dataSize
+
+//@ func (*ChunkWriter).write
+//@   prop C13
+//@   mode bv
+//@   requires w.err != errInternalShortCSize && w != nil && w.Writer != nil && (w.padding == nil || len(w.padding) > 0) && w.dataSize <= 0xFFFFFFFFFFFF && w.CPageSize <= 0xFFFFFFFFFFFF
+//@   ensures[stored] implies(result != nil, w.err == result) && implies(result == nil, unchanged(w.err)) && (w.padding == nil || len(w.padding) > 0)
+//@   ensures w.err != errInternalShortCSize
+//@   ensures[counted] implies(result == nil, w.dataSize >= uint64(len(data)) && w.dataSize <= 0xFFFFFFFFFFFF && w.dataSize >= old(w.dataSize))
+//@   modifies w.err, w.padding, w.dataSize
+
+//@ func (*ChunkWriter).initialize
+//@   prop C13
+//@   requires cwOK(w)
+//@   ensures cwOK(w)
+//@   ensures[sticky] implies(old(w.err) != nil, result == old(w.err) && unchanged(w.err))
+//@   ensures[stored] implies(result != nil, w.err == result) && implies(result == nil, w.err == nil && w.initialized)
+//@   modifies w.err, w.initialized, w.log2CPageSize, w.tempFileSeekStart, w.padding, w.dataSize
+
+// AddResource / AddChunk: sticky error; the identifier handed out is the index
+// of the new entry; the chunk's DRange size is added to the file's size.
 //@ func (*ChunkWriter).AddResource
 //@   prop C13
-//@   trusted summary of ChunkWriter.AddResource (writes through io.Writer / TempFile): assumed, not yet verified
-//@   requires w != nil
-//@   ensures implies(result1 != nil, w.err != nil || true)
-//@   modifies *w
+//@   requires cwOK(w)
+//@   ensures cwOK(w)
+//@   ensures[stored] implies(result1 != nil, w.err == result1) && result1 != errInternalShortCSize
+//@   ensures[id] implies(result1 == nil, result0 != 0 && int(result0) == len(w.resourcesCOffCLens) - 1)
+//@   ensures[backing] base(w.resourcesCOffCLens) == old(base(w.resourcesCOffCLens)) || fresh(base(w.resourcesCOffCLens))
+//@   modifies *w, mem(w.resourcesCOffCLens)
 
 //@ func (*ChunkWriter).AddChunk
 //@   prop C13
-//@   trusted summary of ChunkWriter.AddChunk (writes through io.Writer / TempFile): assumed, not yet verified
-//@   requires w != nil
+//@   requires cwOK(w)
+//@   ensures cwOK(w)
+//@   ensures[sticky] implies(old(w.err) != nil, result == old(w.err) && unchanged(w.err))
+//@   ensures[stored] implies(result != nil, w.err == result || result == errInvalidCodec) && result != errInternalShortCSize
+//@   ensures[size] implies(result == nil && dRangeSize > 0, w.dFileSize == old(w.dFileSize) + dRangeSize && len(w.leafNodes) == old(len(w.leafNodes)) + 1)
+//@   ensures[resources] unchanged(w.resourcesCOffCLens)
 //@   modifies *w
 
 // ---- chunk_reader.go: node layout (RAC spec, "Branch Nodes") ----
